@@ -1065,50 +1065,53 @@ func NewReader(f io.ReaderAt, size int64, fd storage.FileDesc, cache *cache.Name
 		return r, nil
 	}
 
-	// Read metaindex block.
+	// Read metaindex block. It only tells where the filter block is: like a
+	// damaged filter block, a damaged metaindex block costs the filter, not
+	// the table.
 	metaBlock, err := r.readBlock(r.metaBH, true)
 	if err != nil {
-		if errors.IsCorrupted(err) {
-			r.err = err
-			return r, nil
+		if !errors.IsCorrupted(err) {
+			return nil, err
 		}
-		return nil, err
+		metaBlock = nil
 	}
 
 	// Set data end.
 	r.dataEnd = int64(r.metaBH.offset)
 
 	// Read metaindex.
-	metaIter := r.newBlockIter(metaBlock, nil, nil, true)
-	for metaIter.Next() {
-		key := string(metaIter.Key())
-		if !strings.HasPrefix(key, "filter.") {
-			continue
-		}
-		fn := key[7:]
-		if f0 := o.GetFilter(); f0 != nil && f0.Name() == fn {
-			r.filter = f0
-		} else {
-			for _, f0 := range o.GetAltFilters() {
-				if f0.Name() == fn {
-					r.filter = f0
-					break
-				}
-			}
-		}
-		if r.filter != nil {
-			filterBH, n := decodeBlockHandle(metaIter.Value())
-			if n == 0 {
+	if metaBlock != nil {
+		metaIter := r.newBlockIter(metaBlock, nil, nil, true)
+		for metaIter.Next() {
+			key := string(metaIter.Key())
+			if !strings.HasPrefix(key, "filter.") {
 				continue
 			}
-			r.filterBH = filterBH
-			// Update data end.
-			r.dataEnd = int64(filterBH.offset)
-			break
+			fn := key[7:]
+			if f0 := o.GetFilter(); f0 != nil && f0.Name() == fn {
+				r.filter = f0
+			} else {
+				for _, f0 := range o.GetAltFilters() {
+					if f0.Name() == fn {
+						r.filter = f0
+						break
+					}
+				}
+			}
+			if r.filter != nil {
+				filterBH, n := decodeBlockHandle(metaIter.Value())
+				if n == 0 {
+					continue
+				}
+				r.filterBH = filterBH
+				// Update data end.
+				r.dataEnd = int64(filterBH.offset)
+				break
+			}
 		}
+		metaIter.Release()
+		metaBlock.Release()
 	}
-	metaIter.Release()
-	metaBlock.Release()
 
 	// Cache index and filter block locally, since we don't have global cache.
 	if cache == nil {
